@@ -41,6 +41,10 @@ class Model:
         if case.get("reconf_seq"):
             self.seq.update(case["reconf_seq"])
         self.selected = selection(self, case.get("sel"))
+        if case.get("call") == "setup":
+            # dag.setup() / executor(sel).setup(): the setup-only part of the selection
+            base = self.selected if self.selected is not None else set(self.sites)
+            self.selected = {s for s in base if self.spec[s].get("setup")}
 
     def pooled(self, s: str) -> bool:
         return self.res[s] != "main-thread"
@@ -122,6 +126,18 @@ def execute(case: Dict[str, Any], M: Optional[Model] = None, built: Any = None, 
             out.built = b
             target: Any = b.dag
             sel = case.get("sel")
+            if case.get("call") == "setup":
+                ids = b.node_ids()
+                tn = None if not sel or sel.get("T") is None else [ids[x] for x in sel["T"]]
+                dag_ = b.dag
+                if case.get("async"):
+                    async def _setup_async(*_a: Any) -> Any:
+                        return await dag_.setup(target_nodes=tn)
+
+                    target = _setup_async
+                else:
+                    target = lambda *_a: dag_.setup(target_nodes=tn)  # noqa: E731
+                sel = None
             if sel and any(sel.get(k) is not None for k in "TXR"):
                 ids = b.node_ids()
                 kw = {}
